@@ -263,6 +263,18 @@ func pooledOps() []pop {
 			hio.FreeDecoder(dec)
 			return fmt.Sprintf("%s err=%v", render(reflect.ValueOf(&v).Elem(), 0), err)
 		}},
+		{"pool-decoder-failing-input-then-good-input", func() string {
+			// one user, two inputs on the decoder it holds: the first is cut short, the second is whole
+			dec := hio.GetDecoder().ResetBytes(append([]byte{}, refBytes[:len(refBytes)/2]...))
+			var v, w interface{}
+			dec.Decode(&v)
+			first := dec.Error != nil
+			dec.ResetBytes(append([]byte{}, refBytes...)).Reset()
+			dec.Decode(&w)
+			err := dec.Error
+			hio.FreeDecoder(dec)
+			return fmt.Sprintf("first-input-failed=%v %s err=%v", first, render(reflect.ValueOf(&w).Elem(), 0), err)
+		}},
 		{"pool-decoder-bytes-then-reader", func() string {
 			input := append([]byte{}, simBytes...)
 			dec := hio.GetDecoder().ResetBytes(input)
@@ -303,6 +315,20 @@ func pooledSequences(shard, nshards int, thorough bool) h.SeqResult {
 	for i, op := range ops {
 		hio.VerifDrainPools()
 		vs.Seq(vs.Config{}, func() { fresh[i] = op.run() })
+	}
+	// the second input of one decoder decodes as it does on a decoder of its own: the error of the first is
+	// not visible any more (an absolute expectation: "fresh" would carry the same fault)
+	if shard == 0 {
+		var w interface{}
+		refBytes, _ := hio.Formatter{Simple: false}.Marshal([]interface{}{"shared", "shared", valA(), []int{1, 2}})
+		d := hio.NewDecoder(append([]byte{}, refBytes...)).Simple(false)
+		d.Decode(&w)
+		want := fmt.Sprintf("first-input-failed=true %s err=%v", render(reflect.ValueOf(&w).Elem(), 0), d.Error)
+		for i, op := range ops {
+			if op.name == "pool-decoder-failing-input-then-good-input" && fresh[i] != want {
+				res.Violate("pooled|error-of-the-previous-input-visible-after-ResetBytes", fmt.Sprintf("one decoder, a truncated input and then ResetBytes(whole input): %q, a decoder of its own gives %q", fresh[i], want), map[string]interface{}{"kind": "pooled-sequence", "ops": []string{op.name}})
+			}
+		}
 	}
 	depth := 3
 	if thorough {
